@@ -9,6 +9,16 @@
 //! relationships (optionally more than 64 nodes) and delete some of the relationships again,
 //! so ids cross 64-id boundaries and the surviving ids have gaps (probes `rel_ids_over_*`,
 //! `rel_ids_over_64_with_gaps`, `node_ids_over_64`).
+//! Names: in half of the non-pristine runs (`knobs.odd_names`) odd-but-legal strings the store
+//! API accepts — "", whitespace-only, a plain name with surrounding whitespace / in the other
+//! case, quotes, backslash, JSON-significant characters, a line break, non-BMP / combining
+//! unicode, the format's own field names — are overlaid on the history's labels, relationship
+//! types, property keys and hierarchy declarations (`kit::snapgraph::gen_odd_names`), alone
+//! and next to ordinary names (probes `empty_label_alone`, `empty_label_with_others`,
+//! `odd_label`, `odd_rel_type`, `empty_rel_type`, `odd_property_key`, `empty_property_key`,
+//! `odd_hierarchy_declaration`); in the same runs about one property value in 12 is a map
+//! keyed by the format's own tag names (`{__type: 'DateTime', value: 5}`, probe
+//! `tag_lookalike_map`).
 //! Three stream configurations, counted separately (probes `cfg_*`):
 //!   clean    — whole-buffer I/O; strict isomorphism + same hierarchy declarations;
 //!   unusual  — short reads/writes (down to 1 byte) and `Interrupted`; same strict oracle;
@@ -115,7 +125,7 @@ impl Scenario for C12 {
         }
     }
     fn rule(&self) -> &'static str {
-        "history = PRNG-generated sequence (<=30 ops; one run in eight additionally starts with bulk events creating >64 / >128 / >192 relationships, optionally >64 nodes, and a bulk deletion among those relationships, so ids cross 64-id boundaries and have gaps) of node/relationship creations through Cypher, the full API and the stub API, property writes (API, column-only, Cypher SET), label additions, early deletions, compact_adjacency / finish_bulk_load, committed transactions (version bumps) and hierarchy index declarations; property values from the boundary generator or from a 'safe' generator (knob). The graph is exported through a simulated writer and imported into an empty store through a simulated reader under one of three stream configurations (clean / unusual / erroring). Non-trivial = the graph has >=2 nodes and >=1 relationship and the export and import both ran. Distinct = hash of the sequence of (op kind, route) plus the stream configuration."
+        "history = PRNG-generated sequence (<=30 ops; one run in eight additionally starts with bulk events creating >64 / >128 / >192 relationships, optionally >64 nodes, and a bulk deletion among those relationships, so ids cross 64-id boundaries and have gaps) of node/relationship creations through Cypher, the full API and the stub API, property writes (API, column-only, Cypher SET), label additions, early deletions, compact_adjacency / finish_bulk_load, committed transactions (version bumps) and hierarchy index declarations; property values from the boundary generator or from a 'safe' generator (knob); in half of the non-pristine runs odd-but-legal names (empty, whitespace-only, padded / other-case variants of a plain name, quotes, backslash, JSON-significant characters, line break, non-BMP and combining unicode, the format's own field names) are overlaid on labels, relationship types, property keys and hierarchy declarations through the store API, alone and next to ordinary names, and about one property value in 12 is a map keyed by the format's own tag names (__type, value, ...). The graph is exported through a simulated writer and imported into an empty store through a simulated reader under one of three stream configurations (clean / unusual / erroring). Non-trivial = the graph has >=2 nodes and >=1 relationship and the export and import both ran. Distinct = hash of the sequence of (op kind, route) plus the stream configuration."
     }
     fn real_components(&self) -> Vec<&'static str> {
         vec![
@@ -137,7 +147,7 @@ impl Scenario for C12 {
         ]
     }
     fn required_probes(&self, _tier: Tier) -> Vec<&'static str> {
-        vec!["cfg_clean", "cfg_unusual", "cfg_erroring", "multi_version_node", "mixed_tiers", "cypher_built", "hierarchy_declared", "strict_equal_clean", "strict_equal_unusual", "export_failed_cleanly", "import_failed_cleanly", "short_read", "interrupted_read", "short_write", "interrupted_write", "rel_ids_over_64", "rel_ids_over_128", "rel_ids_over_64_with_gaps", "node_ids_over_64"]
+        vec!["cfg_clean", "cfg_unusual", "cfg_erroring", "multi_version_node", "mixed_tiers", "cypher_built", "hierarchy_declared", "strict_equal_clean", "strict_equal_unusual", "export_failed_cleanly", "import_failed_cleanly", "short_read", "interrupted_read", "short_write", "interrupted_write", "rel_ids_over_64", "rel_ids_over_128", "rel_ids_over_64_with_gaps", "node_ids_over_64", "empty_label_alone", "empty_label_with_others", "odd_label", "odd_label_next_to_plain_label", "odd_rel_type", "empty_rel_type", "odd_property_key", "empty_property_key", "odd_rel_property_key", "odd_hierarchy_declaration", "tag_lookalike_map"]
     }
     fn generate(&self, s: &mut Streams, _run_index: u64, _tier: Tier) -> Case {
         let mut case = Case::new("C12");
@@ -192,6 +202,16 @@ impl Scenario for C12 {
             let later = if r.chance(1, 2) { 0 } else { r.usize_below(5) };
             let pos = (at + n + later).min(case.events.len());
             case.events.insert(pos, del);
+        }
+        // names: odd-but-legal labels / relationship types / property keys / hierarchy
+        // names and measure names (only the store API can spell them) overlaid on the
+        // history; drawn last so that everything above is the same history as without it
+        let odd = !pristine && s.knobs.chance(1, 2);
+        case.knobs.insert("odd_names".into(), json!(odd));
+        if odd {
+            gen_odd_names(&mut s.workload, &mut case.events);
+            // ... and, inside values, maps keyed by the format's own tag names
+            gen_tag_lookalikes(&mut s.workload, &mut case.events);
         }
         case
     }
@@ -248,6 +268,54 @@ impl Scenario for C12 {
             }
             if max_nid > 64 {
                 o.probe("node_ids_over_64");
+            }
+        }
+        {
+            // odd-but-legal names in the graph that is exported (each probe once per run)
+            let mut seen: BTreeSet<&'static str> = BTreeSet::new();
+            let is_odd = |s: &str, odd: &[&str]| odd.contains(&s);
+            for n in d0.nodes.values() {
+                if n.labels.contains("") {
+                    seen.insert(if n.labels.len() == 1 { "empty_label_alone" } else { "empty_label_with_others" });
+                }
+                if n.labels.iter().any(|l| is_odd(l, &ODD_LABELS)) {
+                    seen.insert("odd_label");
+                    if n.labels.iter().any(|l| !is_odd(l, &ODD_LABELS)) {
+                        seen.insert("odd_label_next_to_plain_label");
+                    }
+                }
+                if n.props.keys().any(|k| is_odd(k, &ODD_KEYS)) {
+                    seen.insert("odd_property_key");
+                }
+                if n.props.contains_key("") {
+                    seen.insert("empty_property_key");
+                }
+            }
+            for e in d0.edges.values() {
+                if is_odd(&e.ty, &ODD_TYPES) {
+                    seen.insert("odd_rel_type");
+                }
+                if e.ty.is_empty() {
+                    seen.insert("empty_rel_type");
+                }
+                if e.props.keys().any(|k| is_odd(k, &ODD_KEYS)) {
+                    seen.insert("odd_rel_property_key");
+                }
+            }
+            for (name, spec) in hier_specs(orig) {
+                let m = spec.measure.as_ref();
+                if is_odd(&name, &ODD_HNAMES)
+                    || spec.edge_types.iter().any(|t| is_odd(t.as_str(), &ODD_TYPES))
+                    || m.map(|m| is_odd(&m.property, &ODD_KEYS) || m.label.as_ref().map(|l| is_odd(l.as_str(), &ODD_LABELS)).unwrap_or(false)).unwrap_or(false)
+                {
+                    seen.insert("odd_hierarchy_declaration");
+                }
+            }
+            if has_tag_lookalike(orig) {
+                seen.insert("tag_lookalike_map");
+            }
+            for p in seen {
+                o.probe(p);
             }
         }
         o.nontrivial = d0.nodes.len() >= 2 && !d0.edges.is_empty();
